@@ -7,7 +7,10 @@ import (
 	"runtime"
 	"strings"
 	"sync"
+	"sync/atomic"
 	"time"
+
+	"storj.io/drpc/drpcdebug"
 
 	"verif/vf"
 )
@@ -52,6 +55,82 @@ type Director struct {
 // NewDirector makes an empty director.
 func NewDirector() *Director {
 	return &Director{threads: map[string]*Thread{}, extra: map[int64]string{}, Timeout: 10 * time.Second}
+}
+
+var (
+	pointMu     sync.RWMutex
+	pointDir    *Director
+	pointArmed  map[string]bool
+	pointGates  map[string]*Gate // by thread name
+	pointOnce   sync.Once
+	pointActive atomic.Bool
+)
+
+// ArmPoints makes managed threads of d park at the named drpcdebug.Point calls until ReleasePoint.
+// Only one director at a time can have armed points.
+func (d *Director) ArmPoints(names ...string) {
+	pointMu.Lock()
+	pointDir = d
+	pointArmed = map[string]bool{}
+	for _, n := range names {
+		pointArmed[n] = true
+	}
+	pointGates = map[string]*Gate{}
+	pointMu.Unlock()
+	pointActive.Store(len(names) > 0)
+	pointOnce.Do(func() {
+		drpcdebug.SetPoint(func(name string) {
+			if !pointActive.Load() {
+				return
+			}
+			pointMu.RLock()
+			dd, armed := pointDir, pointArmed[name]
+			pointMu.RUnlock()
+			if dd == nil || !armed {
+				return
+			}
+			id := vf.GoID()
+			var who string
+			dd.mu.Lock()
+			for n, t := range dd.threads {
+				t.mu.Lock()
+				if t.busy && t.goid == id {
+					who = n
+				}
+				t.mu.Unlock()
+			}
+			dd.mu.Unlock()
+			if who == "" {
+				return
+			}
+			pointMu.Lock()
+			g := pointGates[who]
+			if g == nil {
+				g = &Gate{}
+				pointGates[who] = g
+			}
+			pointMu.Unlock()
+			g.Wait()
+		})
+	})
+}
+
+// DisarmPoints releases everything parked at a point and stops parking.
+func (d *Director) DisarmPoints() {
+	pointActive.Store(false)
+	pointMu.Lock()
+	for _, g := range pointGates {
+		g.ReleaseAll()
+	}
+	pointMu.Unlock()
+}
+
+// ReleasePoint lets the named thread continue from the point it is parked at.
+func (d *Director) ReleasePoint(thread string) bool {
+	pointMu.RLock()
+	g := pointGates[thread]
+	pointMu.RUnlock()
+	return g != nil && g.Release()
 }
 
 // Thread returns (creating if needed) the named thread.
@@ -153,6 +232,7 @@ type Snapshot struct {
 // passed with something still running.
 func (d *Director) Quiesce() (snap Snapshot, ok bool) {
 	deadline := time.Now().Add(d.Timeout)
+	prevSig := ""
 	for spins := 0; ; spins++ {
 		if spins < 20 {
 			runtime.Gosched()
@@ -207,9 +287,27 @@ func (d *Director) Quiesce() (snap Snapshot, ok bool) {
 			}
 			d.mu.Unlock()
 			if !pendingDone {
-				return snap, true
+				// demand the same quiet picture twice in a row (guards against transient wait states)
+				sig := ""
+				for i := range gs {
+					g := &gs[i]
+					if g.ID != me && (g.Has("storj.io/drpc/") || g.Has("verif/")) {
+						top := ""
+						if len(g.Frames) > 0 {
+							top = g.Frames[0]
+						}
+						sig += fmt.Sprintf("%d:%s:%s;", g.ID, g.State, top)
+					}
+				}
+				if sig == prevSig {
+					return snap, true
+				}
+				prevSig = sig
+				runtime.Gosched()
+				continue
 			}
 		}
+		prevSig = ""
 		if time.Now().After(deadline) {
 			return snap, false
 		}
@@ -226,15 +324,33 @@ func (d *Director) Quiesce() (snap Snapshot, ok bool) {
 type Gate struct {
 	mu      sync.Mutex
 	waiting []chan struct{}
+	who     []int64
 }
 
 // Wait parks the caller until Release.
 func (g *Gate) Wait() {
 	ch := make(chan struct{})
+	id := vf.GoID()
 	g.mu.Lock()
 	g.waiting = append(g.waiting, ch)
+	g.who = append(g.who, id)
 	g.mu.Unlock()
 	<-ch
+}
+
+// ReleaseWho lets the caller parked from goroutine id go; false if it is not parked here.
+func (g *Gate) ReleaseWho(id int64) bool {
+	g.mu.Lock()
+	defer g.mu.Unlock()
+	for i, w := range g.who {
+		if w == id {
+			close(g.waiting[i])
+			g.waiting = append(g.waiting[:i], g.waiting[i+1:]...)
+			g.who = append(g.who[:i], g.who[i+1:]...)
+			return true
+		}
+	}
+	return false
 }
 
 // Waiting reports how many callers are parked.
@@ -249,6 +365,7 @@ func (g *Gate) Release() bool {
 	}
 	close(g.waiting[0])
 	g.waiting = g.waiting[1:]
+	g.who = g.who[1:]
 	return true
 }
 
